@@ -1090,6 +1090,78 @@ pub fn c16_concurrent(seed: u64) -> Option<Viol> {
     })
 }
 
+/// C15 under concurrency: stat() is called in a tight loop on two threads while a third thread drains the cache; every
+/// payload has the same size, so each single snapshot can be checked: byte size = 9 x item count. One transition
+/// (all evictable entries leave at once) per cycle, 25 cycles per round. Returns (snapshots checked, violation).
+pub fn torn_stat_round(seed: u64) -> (u64, Option<Viol>) {
+    let mut r = Rng::new(seed);
+    let dir = util::fresh_dir("c15t");
+    let cfg = CfgSpec { max_records: Some(*r.pick(&[4usize, 7, 16])), read_buf: Some(64), ..Default::default() };
+    let mut st = match Store::open(&dir, &cfg, 1) {
+        Ok(s) => s,
+        Err(_) => {
+            util::remove_dir(&dir);
+            return (0, None);
+        }
+    };
+    let mut next = 0u64;
+    let checked = std::sync::atomic::AtomicU64::new(0);
+    let torn: std::sync::Mutex<Option<String>> = std::sync::Mutex::new(None);
+    for _cycle in 0..25 {
+        for _ in 0..r.range(8, 40) {
+            let _ = st.write(&Op::Append(vec![((1, next), format!("c15t-{:04}", next % 10_000))]));
+            next += 1;
+        }
+        let _ = st.sync();
+        let go = std::sync::atomic::AtomicBool::new(false);
+        let done = std::sync::atomic::AtomicBool::new(false);
+        {
+            let rl = st.rl();
+            let (checked, torn, go, done) = (&checked, &torn, &go, &done);
+            std::thread::scope(|sc| {
+                for _ in 0..2 {
+                    sc.spawn(move || {
+                        while !go.load(std::sync::atomic::Ordering::Acquire) {
+                            std::hint::spin_loop();
+                        }
+                        let mut after_done = 0;
+                        loop {
+                            let s = rl.stat();
+                            checked.fetch_add(1, std::sync::atomic::Ordering::Relaxed);
+                            if s.payload_cache_size != 9 * s.payload_cache_item_count {
+                                *torn.lock().unwrap() = Some(format!("one stat() snapshot reports {} cached items and {} bytes although every payload has 9 bytes; another thread was draining the cache at that moment", s.payload_cache_item_count, s.payload_cache_size));
+                                return;
+                            }
+                            if done.load(std::sync::atomic::Ordering::Acquire) {
+                                after_done += 1;
+                                if after_done > 3 {
+                                    return;
+                                }
+                            }
+                        }
+                    });
+                }
+                sc.spawn(move || {
+                    go.store(true, std::sync::atomic::Ordering::Release);
+                    for _ in 0..200 {
+                        std::hint::spin_loop();
+                    }
+                    rl.drain_cache_evictable();
+                    done.store(true, std::sync::atomic::Ordering::Release);
+                });
+            });
+        }
+        if torn.lock().unwrap().is_some() {
+            break;
+        }
+    }
+    st.close();
+    util::remove_dir(&dir);
+    let n = checked.load(std::sync::atomic::Ordering::Relaxed);
+    let v = torn.lock().unwrap().take().map(|t| Viol { prop: "C15".into(), sig: "C15:stat_snapshot_torn".into(), text: t, replay: json!({"kind": "c15t", "seed": seed.to_string()}) });
+    (n, v)
+}
+
 pub fn replay_file_name(v: &Value) -> Option<Viol> {
     use raft_log::{ChunkId, Config, RaftLog};
     let x: u64 = v["offset"].as_str()?.parse().ok()?;
